@@ -16,6 +16,8 @@ pub struct RunResult {
     pub trace: Vec<String>,
     /// scheduling choices as recorded (engines with a chooser); stored into the replay plan
     pub choices: Vec<String>,
+    /// keys to merge into the plan of a violating run so that its replay is exact
+    pub plan_patch: Option<Value>,
 }
 
 pub struct PropSpec {
@@ -113,6 +115,16 @@ pub const PROPS: &[PropSpec] = &[
         thorough_runs: 600_000,
         rule: "followers with limit n relative to the history size (n-1, n, n+1), tail, last-id, context, heartbeat and plain non-follow reads; broadcast capacity 2..1024 and read capacity 1..100 as knobs, consumer and live task starved by policy so the follower falls behind; clock ticks fire heartbeats; non-trivial = a limit was reached, a lag became possible, a pulse was delivered or an append raced the live phase; distinct = distinct decision-sequence hash",
     },
+    PropSpec {
+        id: "C04",
+        engine: "e1",
+        classes: &["crash/"],
+        nontrivial: &[&["cut:inside-operation"]],
+        must_reach: &["image:kill", "image:power-drop", "image:torn", "cut:inside-operation", "cas:sized", "cas:stream", "frame:>8KiB", "remove", "import", "gc:step", "flush", "reopen-in-recording"],
+        quick_runs: 480,
+        thorough_runs: 24_000,
+        rule: "per sampled workload (3-14 sequential operations: append with small / >8KiB / 100KiB frames, both CAS write paths, remove, import, head/time TTL with single collector steps, forced flush, reopen inside the recording) EVERY prefix of the recorded file-operation log is a cut point; per cut a process-kill image plus, where unsynced bytes exist, a power-loss image with all unsynced bytes dropped and 1-2 torn variants; evaluations = workloads, images counted in probes.images; non-trivial = at least one cut fell strictly inside an operation; distinct = distinct workload trace hash",
+    },
 ];
 
 pub fn spec(prop: &str) -> Option<&'static PropSpec> {
@@ -135,6 +147,7 @@ pub fn gen_plan(spec: &PropSpec, thorough: bool, seed: u64) -> Value {
             let cfg = crate::e3::GenCfg::for_prop(spec.id, thorough);
             serde_json::to_value(crate::e3::generate(seed, &cfg)).unwrap()
         }
+        "e1" => serde_json::to_value(crate::e1::generate(seed, spec.id, thorough)).unwrap(),
         "e2" => serde_json::to_value(crate::e2::generate(seed, spec.id, thorough)).unwrap(),
         _ => Value::Null,
     }
@@ -143,6 +156,7 @@ pub fn gen_plan(spec: &PropSpec, thorough: bool, seed: u64) -> Value {
 pub fn exec_plan(engine: &str, plan: &Value, tag: &str) -> RunResult {
     match engine {
         "e3" => crate::e3::exec_value(plan, tag),
+        "e1" => crate::e1::exec_value(plan, tag),
         "e2" => {
             let (mut r, choices) = crate::e2::exec_value(plan, tag);
             r.choices = choices;
@@ -156,6 +170,7 @@ pub fn exec_plan(engine: &str, plan: &Value, tag: &str) -> RunResult {
             sim_ms: 0,
             trace: vec![],
             choices: vec![],
+            plan_patch: None,
         },
     }
 }
